@@ -76,6 +76,8 @@ def main():
         rec = {'unit': name, 'cases': 0, 'vacuous': 0, 'evaluated': 0, 'failures': [], 'known': {}, 'labels': {}, 'distinct': 0}
         seen = set()
         for i in range(n):
+            if i >= n:
+                break
             if time.time() > t_end and rec['cases'] >= 20:
                 break
             try:
@@ -87,6 +89,8 @@ def main():
                 rec['vacuous'] += 1
                 continue
             rec['cases'] += 1
+            if not used:
+                n = 1                      # a unit without inputs is deterministic: one run is all there is
             key = json.dumps(jsonable(used), sort_keys=True)
             if key not in seen:
                 seen.add(key)
